@@ -25,6 +25,7 @@ def shards(tier, seed):
     out = [{"id": n, "fmt": n, "n": 40 if tier == "quick" else 800, "small": tier == "quick"} for n in D.FORMATS]
     out.append({"id": "sense", "fmt": None, "n": 3000 if tier == "quick" else 100000, "small": tier == "quick"})
     out.append({"id": "readcd-params", "fmt": "readcd", "n": 0, "small": tier == "quick"})
+    out.append({"id": "scaling", "fmt": None, "n": 0, "small": tier == "quick"})
     return out
 
 
@@ -33,7 +34,7 @@ def call_budget(ctx, sm, name, fn, buf, alloc, wit_fn, klass, memcheck=False):
     budget = BASE + SLOPE * n
     if memcheck:
         tracemalloc.start()
-    out, steps = sm.run(fn, budget)
+    out, steps = sm.run(fn, budget, opaque_cpu=0.5 + 20e-6 * n)
     if memcheck:
         _cur, peak = tracemalloc.get_traced_memory()
         tracemalloc.stop()
@@ -44,10 +45,13 @@ def call_budget(ctx, sm, name, fn, buf, alloc, wit_fn, klass, memcheck=False):
     ctx.count("outcome_" + out.split(":")[0])
     if out.startswith("raised"):
         ctx.add("exception_types", "%s:%s" % (name, out[7:]))
-    if out == "budget":
+    if out == "opaque":
+        ctx.fail("C11:%s.work_hidden_in_one_step.%s" % (name, klass),
+                 "%s spent %.1f s of CPU beyond what its %d counted lines account for on a %d-byte buffer (%s)" % (name, sm.opaque_hit, steps, len(buf), klass), wit_fn())
+    elif out == "budget":
         ctx.fail("C11:%s.nonterminating.%s" % (name, klass),
                  "%s did not finish within %d steps on a %d-byte buffer (%s)" % (name, budget, len(buf), klass), wit_fn())
-    else:
+    elif out != "opaque":
         ctx.maximum("steps_per_byte.%s" % name, round(steps / max(1, n), 2), {"len": len(buf), "steps": steps})
         ctx.maximum("budget_fraction", round(steps / budget, 4), {"decoder": name, "len": len(buf), "steps": steps, "budget": budget})
     return out
@@ -79,6 +83,13 @@ def mutations(rng, b, sites, small):
                     if off + n <= len(m):
                         force(m, off, n, (1 << (8 * n)) - 1 if v is None else v)
                 yield "pair", bytes(m)
+    # single bytes replaced (separators, terminators, type codes ...)
+    for _ in range(12 if small else 60):
+        if not b:
+            break
+        m = bytearray(b)
+        m[rng.randrange(len(m))] = rng.choice([0x00, 0x20, 0x2C, 0x2E, 0x30, 0x41, 0x7F, 0xFF, rng.getrandbits(8)])
+        yield "bytereplaced", bytes(m)
     # prefixes
     cuts = range(len(b) + 1) if len(b) <= (120 if small else 700) else sorted(set(rng.randrange(len(b)) for _ in range(120 if small else 500)))
     for k in cuts:
@@ -97,6 +108,10 @@ def garbage(rng, small):
             yield "random", bytes(rng.getrandbits(8) for _ in range(n))
         # small numbers in every byte make length fields plausible-but-wrong
         yield "smallints", bytes(rng.choice((0, 0, 1, 2, 4, 8)) for _ in range(n))
+    # a long run of one filler byte with something else at the very end
+    for n in ((1000, 20000) if small else (1000, 20000, 65000)):
+        for fill, tail in ((0x20, b"X"), (0x00, b"\x01"), (0x20, b"\x00X"), (0x61, b",")):
+            yield "run_then_tail", bytes([fill]) * n + tail
 
 
 def run(shard, ctx):
@@ -108,6 +123,8 @@ def run(shard, ctx):
     try:
         if shard["id"] == "sense":
             return run_sense(shard, ctx, sm, rng)
+        if shard["id"] == "scaling":
+            return run_scaling(shard, ctx, sm, rng)
         f = D.FORMATS[shard["fmt"]]
         cls = f.lib_cls()
         if shard["id"] == "readcd-params":
@@ -140,6 +157,10 @@ def run(shard, ctx):
         for klass, m in gb:
             if f.name.startswith("inquiry.vpd") and len(m) >= 2:
                 m = bytes([m[0], f.page]) + m[2:]  # reach this page's decoder
+                if klass == "run_then_tail":
+                    from vmon.refcodec import be
+
+                    m = bytes([0, f.page]) + bytes(be(min(len(m), 65535 - 4), 2)) + m[: 65535 - 4]
             for kw in (kws if len(kws) <= 2 else rng.sample(kws, 2)):
                 i += 1
                 ctx.case((f.name, repr(sorted(kw.items())), m), True)
@@ -149,6 +170,69 @@ def run(shard, ctx):
                             lambda m=m, kw=kw, klass=klass: {"decoder": f.name, "class": klass, "kwargs": kw, "buffer": m}, klass, memcheck=(i % 25 == 0))
     finally:
         sm.close()
+
+
+def run_scaling(shard, ctx, sm, rng):
+    """work must be *proportional* to the size: the same kind of response with 16x as many (distinct) descriptors may not
+    cost more than ~16x the steps"""
+    from vmon.spec import datain as D
+
+    for name in ("getlbastatus", "reportluns", "reporttargetportgroups", "readelementstatus", "prin.readkeys", "prin.readfullstatus",
+                 "inquiry.vpd83", "inquiry.vpd00", "inquiry.vpd80"):
+        f = D.FORMATS[name]
+        cls = f.lib_cls()
+        n1, n2 = (48, 768) if name not in ("inquiry.vpd00",) else (16, 256)
+        if shard["small"] is False and name not in ("inquiry.vpd83", "inquiry.vpd00", "prin.readfullstatus"):
+            n2 = 3072
+        res = []
+        vbig = f.gen(rng, ("count", n2, 0) if name == "reporttargetportgroups" else ("count", n2))
+        if name == "reporttargetportgroups":
+            for i, g in enumerate(vbig["target_port_group_descriptors"]):
+                g["target_port_group"] = i & 0xFFFF  # all distinct
+        for n in (n1, n2):
+            v = shrink(vbig, n) if n != n2 else vbig  # same structure, fewer descriptors
+            b = f.encode(v)
+            kw = f.decode_kwargs(v)
+            out, steps = sm.run(lambda: cls.unmarshall_datain(bytearray(b), **kw), BASE + SLOPE * len(b))
+            ctx.case(("scaling", name, n, len(b)), True, sample={"decoder": name, "descriptors": n, "bytes": len(b), "steps": steps} if ctx.want_sample() else None)
+            ctx.count("monitored_calls")
+            ctx.count("scaling_measurements")
+            res.append((len(b), steps, out))
+        (l1, s1, o1), (l2, s2, o2) = res
+        if "budget" in (o1, o2):
+            ctx.fail("C11:%s.nonterminating.scaling" % name, "%s exceeded its step budget on a well-formed %d-byte response" % (name, l2), {"decoder": name, "bytes": l2})
+            continue
+        r1, r2 = s1 / max(1, l1), s2 / max(1, l2)
+        ctx.maximum("per_byte_cost_growth.%s" % name, round(r2 / max(r1, 1e-9), 2), {"bytes": [l1, l2], "steps": [s1, s2]})
+        if r2 > 2.5 * r1 + 5:
+            ctx.fail("C11:%s.superlinear_work" % name, "%s: %.1f steps/byte on %d bytes but %.1f steps/byte on %d bytes: work is not proportional to the size" % (name, r1, l1, r2, l2),
+                     {"decoder": name, "bytes": [l1, l2], "steps": [s1, s2]})
+
+
+def shrink(v, n):
+    """copy of value tree v whose (innermost long) descriptor list is cut to n entries"""
+    import copy
+
+    v = copy.deepcopy(v)
+
+    def cut(x):
+        if isinstance(x, dict):
+            for k, y in x.items():
+                if isinstance(y, (list, bytes, bytearray)) and len(y) > n and not (isinstance(y, (bytes, bytearray)) and k.endswith("tag")):
+                    if isinstance(y, list) and y and isinstance(y[0], dict) and any(isinstance(z, list) and len(z) > n for z in y[0].values()):
+                        cut(y[0])
+                    else:
+                        x[k] = y[:n]
+                elif isinstance(y, (dict, list)):
+                    cut(y)
+        elif isinstance(x, list):
+            for y in x:
+                cut(y)
+
+    cut(v)
+    if "num_elements" in v and "element_status_pages" in v:
+        v["num_elements"] = sum(len(p["element_descriptors"]) for p in v["element_status_pages"])
+    return v
 
 
 def run_readcd(shard, ctx, sm, rng, f, cls):
